@@ -227,6 +227,7 @@ class _BlockState:
     def __init__(self) -> None:
         self.in_block = False
         self.rules: set[str] = set()
+        self.covers_violation = False
 
 
 def _is_valid_line_range(line: int, max_lines: int) -> bool:
@@ -241,6 +242,7 @@ def _process_block_line(
     if has_ignore_start_marker(line):
         state.rules = _parse_ignore_start_rules(line)
         state.in_block = True
+        state.covers_violation = line_num <= violation.line
         return None
     if has_ignore_end_marker(line):
         return _handle_block_end(line_num, violation, state)
@@ -251,7 +253,7 @@ def _process_block_line(
 
 def _handle_block_end(line_num: int, violation: "Violation", state: _BlockState) -> bool | None:
     """Handle block end marker."""
-    if state.in_block and line_num > violation.line:
+    if state.in_block and state.covers_violation and line_num > violation.line:
         if rules_match_violation(state.rules, violation.rule_id):
             return True
     state.in_block = False
